@@ -361,7 +361,10 @@ pub const SUGGESTED: [u32; 10] = [0, 1, 60, 299, 300, 301, 86400, 86401, 1_000_0
 
 fn mk_request(via: u8, cidmode: u8, reqmode: u8, alt: u32, client: &[u8], req: Option<u32>) -> dhcp::DHCPRequest {
     let mut options = dhcppkt::DhcpOptions::default();
-    let sug = (reqmode >> 3) as usize;
+    let sug = ((reqmode & 0x7f) >> 3) as usize;
+    if reqmode & 128 != 0 {
+        options.other.insert(dhcppkt::OPTION_SERVERID, vec![192, 0, 2, 254]);
+    }
     if sug >= 1 && sug <= SUGGESTED.len() {
         options.other.insert(dhcppkt::OPTION_LEASETIME, SUGGESTED[sug - 1].to_be_bytes().to_vec());
     }
@@ -692,7 +695,11 @@ impl Gen {
                 *r.pick(&[0u8, 0, 3])
             };
             let sug = if r.chance(2, 5) { (1 + r.below(SUGGESTED.len() as u64) as u8) << 3 } else { 0 };
-            (cidmode, m + if r.chance(1, 4) { 4 } else { 0 } + sug, alt)
+            // a REQUEST in SELECTING state names the server it selects (option 54 = the receiving
+            // address); the harness always passes an EMPTY set of remembered server identifiers,
+            // which is the situation right after a restart
+            let names_server = if via == 2 && r.chance(1, 3) { 128 } else { 0 };
+            (cidmode, m + if r.chance(1, 4) { 4 } else { 0 } + sug + names_server, alt)
         };
         // through handle_pkt a chaddr-only client needs its id as chaddr: fine for any length
         let locked = r.below(100) < self.locked_pct;
